@@ -68,19 +68,23 @@ PLANS["C05"] = {
 }
 
 PLANS["C09"] = {
+    "prepare": stages.c09_arith_vectors,
     "jobs": {
-        "quick": [("", "release", 28000), ("", "dev", 8400)],
-        "thorough": [("", "release", 2800000), ("", "dev", 560000)],
+        "quick": [("", "release", 84000), ("", "dev", 16800), ("pyvec", "release", 40000), ("pyvec", "dev", 40000)],
+        "thorough": [("", "release", 2800000), ("", "dev", 560000), ("pyvec", "release", 1000000), ("pyvec", "dev", 1000000)],
     },
     "rule": "a case is one of the 28 words with 48 operand tuples drawn from boundary integers (0, +-1, +-2, 2^k, 2^k+-1, i64/i128 "
             "min/max, random), reals (zeros, subnormals, +-1, ties, max, infinities, NaN for non-comparisons, random bit patterns), "
             "mixed int/real and non-numeric operands; operands are pushed as cells (every 8th all-integer tuple goes through "
-            "literals) above a sentinel and the word is run through eval. distinct = distinct (word, operand classes, outcome class)",
+            "literals) above a sentinel and the word is run through eval. The shard pyvec replays 40000 operand tuples per run whose exact "
+            "result (representable / wrapped / division by zero / flag / double) was computed by Python's unbounded integers and "
+            "doubles. distinct = distinct (word, operand classes, outcome class) / distinct vectors",
     "assumptions": ["non-representable + - * / neg abs (and bsl) may wrap or raise IntegerOverflow; real rem by zero may be NaN or a "
                     "division error; min/max with a NaN or with equal operands may return either operand; round is ties-away-from-zero",
                     "comparisons are not given NaN operands (left unspecified by the statement)"],
     "require": [need_set("words", 28), need("outcome:wrapped", 100), need("outcome:division-error", 50), need("outcome:type-error", 1000),
-                need("outcome:exact", 10000), need("outcome:real", 5000)],
+                need("outcome:exact", 10000), need("outcome:real", 5000),
+                need("pyvec:vectors", 70000), need_set("pyvec_words", 27), need("pyvec:kind:wrap", 2000), need("pyvec:kind:div0", 500)],
 }
 
 PLANS["C18"] = {
